@@ -208,10 +208,13 @@ Init ==
     /\ hist = <<>>
 
 \* ------------------------------------------------------------------ accesses (for NoRace)
-NoAcc == [loc |-> "none", w |-> FALSE]
-Rd(l) == [loc |-> l, w |-> FALSE]
-Wr(l) == [loc |-> l, w |-> TRUE]
+NoAcc == [at |-> "none", w |-> FALSE]
+Rd(l) == [at |-> l, w |-> FALSE]
+Wr(l) == [at |-> l, w |-> TRUE]
 ObjOf(label) == IF label \in {"I1", "I2", "I3", "IL", "IU"} THEN "inner" ELSE "root"
+
+\* the caller supplied the sub-object s
+SPresent(g) == \E p \in SubPaths : cur[g].arg.m[p] # Absent
 
 \* the access goroutine g performs with its next step
 Acc(g) ==
@@ -244,7 +247,7 @@ Acc(g) ==
 
 Held(g) == {l \in DOMAIN mutex : mutex[l] = g}
 Conflict(g, h) ==
-    /\ Acc(g).loc # "none" /\ Acc(g).loc = Acc(h).loc
+    /\ Acc(g).at # "none" /\ Acc(g).at = Acc(h).at
     /\ Acc(g).w \/ Acc(h).w
     /\ Held(g) \cap Held(h) = {}
 Race == \E g \in G : \E h \in G : g # h /\ Conflict(g, h)
@@ -425,7 +428,6 @@ TopFill(g) ==                        \* R1: map-based / no sub-object: result fr
     /\ Goto(g, "ret") /\ UNCHANGED <<defaultsCache, cell>> /\ ObjFrame
 
 \* ------------------------------------------------------------------ objects: the by-value sub-object s
-SPresent(g) == \E p \in SubPaths : cur[g].arg.m[p] # Absent
 \* S0: resolve the reference (property.Type().(Ref).GetObject()): reads the link
 SubResolve(g) ==
     /\ At(g, "S0")
